@@ -1,8 +1,10 @@
 package c14
 
 import (
+	"sort"
 	"strings"
 	"unicode"
+	"unicode/utf8"
 
 	ucfg "github.com/elastic/go-ucfg"
 
@@ -60,13 +62,15 @@ func clip(s string, n int) string {
 	return s
 }
 
-// errText is the message without the stack trace critical errors append.
+// errText is the message of the error: Message() for typed errors (critical
+// errors append a stack trace to Error()), the text otherwise.
 func errText(err error) string {
-	s := err.Error()
-	if i := strings.Index(s, "\nTrace:"); i >= 0 {
-		s = s[:i]
+	if e, ok := err.(ucfg.Error); ok {
+		if m := e.Message(); m != "" {
+			return m
+		}
 	}
-	return s
+	return err.Error()
 }
 
 // typed applies oracle A to one error returned by the API entry point.
@@ -105,64 +109,99 @@ func typed(res *harness.R, entry string, err error, ctx string) string {
 	return problem
 }
 
-// "for key: '<name>'" (cyclic reference) is not taken: it names the reference
-// that closed the cycle, which is the faulty setting only by coincidence.
-var pathMarkers = []string{"accessing '", "in field '"}
+// The judgement of a message does not depend on its wording: a setting is
+// named if its full dotted path occurs as a delimited token, i.e. the
+// characters directly before and after the occurrence are not path characters
+// (letters, digits, '_', '.', '-'); quotes, blanks, colons, brackets and the
+// ends of the text delimit, and so does a full stop that ends a sentence.
 
-// namedPaths extracts the quoted setting paths an error message names.
-func namedPaths(msg string) []string {
-	var out []string
-	for _, m := range pathMarkers {
-		rest := msg
-		for {
-			i := strings.Index(rest, m)
-			if i < 0 {
-				break
-			}
-			rest = rest[i+len(m):]
-			j := strings.IndexByte(rest, '\'')
-			if j < 0 {
-				break
-			}
-			out = append(out, rest[:j])
-			rest = rest[j:]
-		}
+func isPathChar(r rune) bool {
+	return unicode.IsLetter(r) || unicode.IsDigit(r) || r == '_' || r == '.' || r == '-'
+}
+
+// hasToken reports whether msg contains tok as a delimited token; with deeper
+// a continuation ".<more>" behind tok is accepted too (a setting below tok).
+func hasToken(msg, tok string, deeper bool) bool {
+	if tok == "" {
+		return false
 	}
-	return out
+	for from := 0; from < len(msg); {
+		j := strings.Index(msg[from:], tok)
+		if j < 0 {
+			return false
+		}
+		s := from + j
+		e := s + len(tok)
+		okBefore := true
+		if s > 0 {
+			r, _ := utf8.DecodeLastRuneInString(msg[:s])
+			okBefore = !isPathChar(r)
+		}
+		okAfter := true
+		if e < len(msg) {
+			r, n := utf8.DecodeRuneInString(msg[e:])
+			switch {
+			case r == '.' && deeper:
+			case r == '.':
+				// only the full stop of a sentence delimits
+				okAfter = e+n == len(msg) || unicode.IsSpace(rune(msg[e+n]))
+			default:
+				okAfter = !isPathChar(r)
+			}
+		}
+		if okBefore && okAfter {
+			return true
+		}
+		_, n := utf8.DecodeRuneInString(msg[s:])
+		from = s + n
+	}
+	return false
 }
 
 // verdict of oracle B on one error message.
 type verdict struct {
-	problems []string // error-lacks-path, error-names-wrong-path, error-lacks-source
-	named    []string
+	problems []string // error-lacks-path, error-names-wrong-path, error-lacks-source, error-names-wrong-source
+	named    []string // the other settings of the tree the message names instead (longest first)
 }
 
 // judgeMessage checks that msg names want (or, with below, a setting inside
-// want) and carries the source.
-func judgeMessage(msg, want string, below bool, srcFamily, srcExact string) verdict {
+// want) and carries the source. others are the full dotted paths of all other
+// settings and containers of the tree (and any further candidate): if want is
+// not named but one of them is, the message names a different setting.
+// sources are all source strings of the history; exact (if not empty) is the
+// one that delivered the faulty value.
+func judgeMessage(msg, want string, below bool, others []string, sources []string, exact string) verdict {
 	var v verdict
-	v.named = namedPaths(msg)
-	ok := false
-	for _, n := range v.named {
-		if n == want || below && strings.HasPrefix(n, want+".") {
-			ok = true
+	if !hasToken(msg, want, below) {
+		for _, o := range others {
+			if o != want && hasToken(msg, o, false) {
+				v.named = append(v.named, o)
+			}
+		}
+		sort.Slice(v.named, func(i, j int) bool {
+			if len(v.named[i]) != len(v.named[j]) {
+				return len(v.named[i]) > len(v.named[j])
+			}
+			return v.named[i] < v.named[j]
+		})
+		if len(v.named) > 0 {
+			v.problems = append(v.problems, "error-names-wrong-path")
+		} else {
+			v.problems = append(v.problems, "error-lacks-path")
 		}
 	}
-	switch {
-	case ok:
-	case len(v.named) > 0:
-		v.problems = append(v.problems, "error-names-wrong-path")
-	default:
-		v.problems = append(v.problems, "error-lacks-path")
+	any := false
+	for _, s := range sources {
+		any = any || hasToken(msg, s, false)
 	}
 	switch {
-	case srcExact != "" && !strings.Contains(msg, "(source:'"+srcExact+"')"):
-		if strings.Contains(msg, "(source:'"+srcFamily) {
+	case exact != "" && !hasToken(msg, exact, false):
+		if any {
 			v.problems = append(v.problems, "error-names-wrong-source")
 		} else {
 			v.problems = append(v.problems, "error-lacks-source")
 		}
-	case srcExact == "" && !strings.Contains(msg, "(source:'"+srcFamily):
+	case exact == "" && !any:
 		v.problems = append(v.problems, "error-lacks-source")
 	}
 	return v
